@@ -78,6 +78,18 @@ CHECKS = {
 }
 
 # later additions to a check, appended to its level text (see DESIGN.md §5 for each)
+ADDENDA_3 = {
+    "C01": " The N family pads messages up to 40 kB (frames reach the server's decoder in several reads).",
+    "C02": " A requestor whose request stream ended but whose sink works (half-closed) stays owed its replies; the departures family runs for C02 too.",
+    "C03": " A quarter of the runs have subscriber churn around the judged subscribers; a client stream dropped by the server on a loss-free network is a violation.",
+    "C06": " Long runs (up to 40000) of well-formed frames that carry nothing, with the victim on a 2 MiB stack; hostile-server family: the real client against a raw endpoint answering registrations with crafted Error texts (long, multi-byte across cut-offs, not UTF-8), wrong-kind frames, non-frames, nothing.",
+    "C08": " R scripts include connection deaths (stream end and sink failure at the same instant).",
+    "C10": " N smoke: a standby library replier (40 attempts, 300 ms apart) must take over once the bound replier left.",
+    "C11": " hostile-server family: an Error answer must surface as an error from open()/listen(), nothing may panic.",
+    "C13": " The order of the three builder setters is seeded.",
+    "C15": " Fourth server identity (issued by the other CA, presented as its own full chain; 16 pairings); renewal also after a first client was built from the same paths; the server is built by Server::try_from(UserArgs) (hook H5).",
+    "C17": " Topic B is also probed over the very connection whose publisher is blocked on topic A.",
+}
 ADDENDA = {
     "C02": " N part (slow-requestors): raw requestors behind 1 kB-1 MB stream windows burst requests at a library replier, stall, then read; each must receive exactly its own replies, once, intact, cid stripped.",
     "C03": " Also: truly empty items; 1-2 MB made of thousands of small messages under batch sizes up to 20000 (batches cut by encoded size); subscribers read during or only after publishing.",
@@ -103,7 +115,7 @@ def main():
         if pid not in CHECKS:
             continue
         cat, engine, technique, text, note, ref = CHECKS[pid]
-        text = text + ADDENDA.get(pid, "")
+        text = text + ADDENDA.get(pid, "") + ADDENDA_3.get(pid, "")
         engine = ENGINE_OVERRIDE.get(pid, engine)
         checks.append({
             "property_id": pid,
